@@ -589,6 +589,29 @@ def table():
     return _TABLE
 
 
+def lookup(facts, tab, s):
+    """Audited entry of a site: under its own key, under its alternative description (thin accessor not looked through), or under the key it had in
+    a recorded helper that has since been inlined into this fn and deleted."""
+    ent = tab.get(s.key)
+    if ent is None and s.alt:
+        for o_ in range(0, 4):
+            ent = tab.get("%s|%s|%s|%d" % (s.fn, s.kind, s.alt, o_))
+            if ent is not None:
+                break
+    if ent is None:
+        for m_ in (getattr(facts, "moved_into", None) or {}).get(s.fn, []):
+            for o_ in range(0, 4):
+                for org in [s.origin] + ([s.alt] if s.alt else []):
+                    ent = tab.get("%s|%s|%s|%d" % (m_, s.kind, org, o_))
+                    if ent is not None:
+                        break
+                if ent is not None:
+                    break
+            if ent is not None:
+                break
+    return ent
+
+
 def inventory(facts, rep, rule, roots, floor=None, exclude=(), prop=None):
     """Evaluate the inventory rule for `roots`; record instances on `rep`. Returns list of Sites."""
     global _FACTS
@@ -608,24 +631,7 @@ def inventory(facts, rep, rule, roots, floor=None, exclude=(), prop=None):
             if s.auto:
                 rep.ok(rule, s.key, "discharged by local guard: " + s.auto, s.loc)
                 continue
-            ent = tab.get(s.key)
-            if ent is None and s.alt:
-                for o_ in range(0, 4):
-                    ent = tab.get("%s|%s|%s|%d" % (s.fn, s.kind, s.alt, o_))
-                    if ent is not None:
-                        break
-            if ent is None:
-                # and the other way round: the audited description looked through an accessor that is no longer thin
-                pass
-            if ent is None:
-                # the site may have come here with a recorded helper that was inlined into this fn and deleted
-                for m_ in (getattr(facts, "moved_into", None) or {}).get(s.fn, []):
-                    for o_ in range(0, 4):
-                        ent = tab.get("%s|%s|%s|%d" % (m_, s.kind, s.origin, o_))
-                        if ent is not None:
-                            break
-                    if ent is not None:
-                        break
+            ent = lookup(facts, tab, s)
             if ent is not None and prop and prop in ent.get("props", {}):
                 ent = ent["props"][prop]
             if ent is None:
